@@ -92,12 +92,22 @@ type Opts struct {
 	HostHdr string `json:"hostHdr"` // Request.Header.SetHost(...) ("": not set)
 }
 
+// Op is one operation on a specially stored request header, carried out in order after everything else:
+//   set name value (Header.Set) | del name (Header.Del) | setHost v | setUA v | setCT v | setClose | resetClose |
+//   setCookie name value
+type Op struct {
+	Op    string `json:"op"`
+	Name  string `json:"name"`
+	Value string `json:"value"`
+}
+
 type Prog struct {
-	Method string `json:"method"`
-	URL    string `json:"url"`
-	Hdrs   []Hdr  `json:"hdrs"`
-	Body   Body   `json:"body"`
-	Opts   Opts   `json:"opts"`
+	Method  string `json:"method"`
+	URL     string `json:"url"`
+	Hdrs    []Hdr  `json:"hdrs"`
+	Body    Body   `json:"body"`
+	Opts    Opts   `json:"opts"`
+	Special []Op   `json:"special"`
 }
 
 type Script struct {
@@ -483,9 +493,9 @@ func rawHead(raw []byte) (start string, lines []map[string]string) {
 			continue
 		}
 		if c := strings.IndexByte(ln, ':'); c >= 0 {
-			lines = append(lines, map[string]string{"name": ln[:c], "value": strings.TrimSpace(ln[c+1:])})
+			lines = append(lines, map[string]string{"name": ln[:c], "lname": strings.ToLower(ln[:c]), "value": strings.TrimSpace(ln[c+1:])})
 		} else {
-			lines = append(lines, map[string]string{"name": "", "value": ln})
+			lines = append(lines, map[string]string{"name": "", "lname": "", "value": ln})
 		}
 	}
 	return
@@ -550,6 +560,28 @@ func (w *worker) buildRequest(req *protocol.Request, p *Prog, cfg *Cfg) {
 	}
 	if p.Opts.Close {
 		req.SetConnectionClose()
+	}
+	for _, o := range p.Special {
+		switch o.Op {
+		case "set":
+			req.Header.Set(o.Name, o.Value)
+		case "del":
+			req.Header.Del(o.Name)
+		case "setHost":
+			req.Header.SetHost(o.Value)
+		case "setUA":
+			req.Header.SetUserAgentBytes([]byte(o.Value))
+		case "setCT":
+			req.Header.SetContentTypeBytes([]byte(o.Value))
+		case "setClose":
+			req.SetConnectionClose()
+		case "resetClose":
+			req.Header.ResetConnectionClose()
+		case "setCookie":
+			req.Header.SetCookie(o.Name, o.Value)
+		default:
+			panic("c11: unknown header operation " + o.Op)
+		}
 	}
 	b := &p.Body
 	switch b.Kind {
@@ -657,7 +689,8 @@ func (w *worker) exchange(cl *client.Client, c *Case, e *Exchange, req *protocol
 	w.used = 0
 	err := cl.Do(context.Background(), req, resp)
 	rec := map[string]interface{}{"x": x, "err": errClass(err), "errText": "", "status": 0, "fields": []map[string]string{}, "names": []string{},
-		"bodyLen": 0, "bodyRuns": [][]int{}, "trailers": []map[string]string{}, "streamed": false, "readErr": "", "reads": 0, "buffered": -1}
+		"bodyLen": 0, "bodyRuns": [][]int{}, "trailers": []map[string]string{}, "streamed": false, "readErr": "", "reads": 0, "buffered": -1,
+		"cl": ""}
 	// bytes the client has read from the socket of the connection it used but not consumed (-1: connection closed)
 	buffered := func() int {
 		if w.used >= 1 && w.used <= len(w.conns) && !w.conns[w.used-1].isClosed() {
@@ -683,6 +716,12 @@ func (w *worker) exchange(cl *client.Client, c *Case, e *Exchange, req *protocol
 		}
 	})
 	rec["names"] = names
+	// the Content-Length field as the returned header shows it ("": none)
+	resp.Header.VisitAll(func(k, v []byte) {
+		if strings.EqualFold(string(k), "Content-Length") && rec["cl"] == "" {
+			rec["cl"] = string(v)
+		}
+	})
 	var body []byte
 	if resp.IsBodyStream() {
 		rec["streamed"] = true
